@@ -35,9 +35,17 @@ def run(ctx, rep):
         wl, wo = RD.iterator_roles(fx, rep, "C04.4", impl)
         if wl:
             RD.check_with_lines(fx, rep, "C04.4", impl, wl, "C04.4")
+    # premises of "every method line is answered": each Method record is registered (both builders), and the file the writer
+    # lays out is the one the reader slices (counts, offsets, tiling)
+    for impl in ("mapper", "cache"):
+        nme = BR.check_method_effects(fx, rep, "C04.B", impl)
+        rep.floor("C04.B/" + impl, nme, 8, "Method-record paths (%s)" % impl)
     wv = CF.WriterView(fx, rep, "C04.2")
     if wv.ok:
         CF.check_order(fx, rep, "C04.2", wv)
+        seqs = CF.check_emission(fx, rep, "C04.W", wv)
+        if seqs:
+            CF.check_sections(fx, rep, "C04.W", wv, seqs)
     # control: `any` instead of `all` is a different canonical form
     import sym as S, fc
     cx = ctx.controls()
